@@ -303,14 +303,85 @@ def _all_outcomes(state, uid_n, conc):
                 stack.append(taken[:i] + [alt])
 
 
+
+# ----------------------------------------------------------------------------- same action name, different arguments
+ARGSETS = ["", 'script="Hello"', 'script="Hello", intensity=2', 'script="Bye"', 'intensity=2, script="Hello"']
+
+
+def same_name_part(_):
+    """Two flows react to one event by starting an action of the SAME name: only identical argument sets make an identical
+    action (both proceed, started once, argument order does not matter); a subset / superset / different value is a
+    different action - exactly one flow proceeds (the more specific one if there is one) and the action that is started
+    is the one its flow asked for."""
+    res = {"same_name_cases": 0, "same_name_outcomes": 0, "viol": []}
+
+    def norm(a):
+        return tuple(sorted(x.strip() for x in a.split(",") if x.strip()))
+
+    for (ia, a), (ib, b) in itertools.product(enumerate(ARGSETS), repeat=2):
+        for spec in ("equal", "a-more-specific", "b-more-specific"):
+            ma = "E(p1=1)" if spec == "a-more-specific" else "E()"
+            mb = "E(p1=1)" if spec == "b-more-specific" else "E()"
+            src = (f"flow fa\n  match {ma}\n  start Act1Action({a})\n  send DoneA()\n  match Never()\n\n"
+                   f"flow fb\n  match {mb}\n  start Act1Action({b})\n  send DoneB()\n  match Never()\n\n"
+                   "flow main\n  start fa\n  start fb\n  match Never()\n")
+            identical = norm(a) == norm(b)
+            if identical:
+                # both go on with the shared action: their next statements must be identical, too
+                src = src.replace("send DoneA()", "send Done()").replace("send DoneB()", "send Done()")
+            info = {"engine": "C05-inst", "source": src, "args": [a, b], "specificity": spec}
+            name = f"same-name:{'identical' if identical else 'different'}-arguments:{spec}"
+            try:
+                st = v2x.init_state(src)
+                v2x.step(st, v2x.resolve_event(st, ("start_main",)), [], v2x.UIDS.n)
+                outcomes = list(_all_outcomes(st, v2x.UIDS.n, {"type": "E", "p1": 1, "p2": 2}))
+            except Exception as e:
+                res["viol"].append((f"{name}:interpreter-raised", f"{type(e).__name__}: {str(e)[:120]}", info))
+                continue
+            res["same_name_cases"] += 1
+            for vec, st2, _n in outcomes:
+                res["same_name_outcomes"] += 1
+                starts = [e for e in st2.outgoing_events if e["type"] == "StartAct1Action"]
+                alive = {f: sm.is_listening_flow(st2.flow_id_states[f][-1]) for f in ("fa", "fb")}
+                what = None
+                if identical:
+                    if not (alive["fa"] and alive["fb"]) or len(starts) != 1:
+                        what = f"identical actions: both flows must proceed and the action be started once; alive {alive}, {len(starts)} Start event(s)"
+                else:
+                    if sum(alive.values()) != 1 or len(starts) != 1:
+                        what = f"Act1Action({a}) and Act1Action({b}) are different actions: exactly one flow proceeds; alive {alive}, {len(starts)} Start event(s)"
+                    else:
+                        w = "fa" if alive["fa"] else "fb"
+                        if spec != "equal" and w != ("fa" if spec == "a-more-specific" else "fb"):
+                            what = f"the less specific flow {w} proceeded"
+                        else:
+                            want = dict(x.strip().split("=") for x in (a if w == "fa" else b).split(",") if x.strip())
+                            got = {k: (repr(v) if not isinstance(v, str) else '"' + v + '"') for k, v in starts[0].items() if k in ("script", "intensity")}
+                            if got != want:
+                                what = f"{w} proceeded but the action was started with {got}, it asked for {want}"
+                if what:
+                    res["viol"].append((name, f"tie-break {list(vec)}: " + what, dict(info, vector=list(vec))))
+                    break
+    seen, uniq = set(), []
+    for v in res["viol"]:
+        if v[0] not in seen:
+            seen.add(v[0])
+            uniq.append(v)
+    res["viol"] = uniq
+    return res
+
+
 def instance_event_part(_):
     """Two flows react to one event by sending an event to an action INSTANCE each holds (`send $r.Stop()`,
     `send $r.Change(...)`): different instances are different actions - exactly one flow proceeds; the same
     shared instance is an identical action - both proceed and the event is sent once."""
     res = {"instance_event_cases": 0, "instance_event_outcomes": 0, "viol": []}
-    for op, shared, loops in itertools.product(("Stop()", 'Change(arguments={"volume": 3})'), (False, True), ("same", "different")):
+    for op, shared, loops, confirmed in itertools.product(("Stop()", 'Change(arguments={"volume": 3})'), (False, True), ("same", "different"),
+                                                          ("both", "none", "first", "second")):
         if shared and loops == "different":
             continue   # identical actions of different loops are not merged: that is the `own` case
+        if shared and confirmed in ("first", "second"):
+            continue
         argA, argB = ("x", "x") if shared else ("A", "B")
         deco = '@loop("L2")\n' if loops == "different" else ""
         # own instances: each flow starts its action when it is started (no competition); shared instance: both
@@ -321,8 +392,8 @@ def instance_event_part(_):
         src = (f'flow fa\n{first}  start Act1Action(script="{argA}") as $r\n  match E1()\n  send $r.{op}\n  send {dA}()\n  match Never()\n\n'
                f'{deco}flow fb\n{first}  start Act1Action(script="{argB}") as $r\n  match E1()\n  send $r.{op}\n  send {dB}()\n  match Never()\n\n'
                f'flow main\n  start fa\n  start fb\n  match Never()\n')
-        info = {"engine": "C05-inst", "source": src, "op": op, "shared": shared, "loops": loops}
-        name = f"{op.split('(')[0]}:{'shared' if shared else 'own'}-instance:{loops}-loop"
+        info = {"engine": "C05-inst", "source": src, "op": op, "shared": shared, "loops": loops, "started_confirmed": confirmed}
+        name = f"{op.split('(')[0]}:{'shared' if shared else 'own'}-instance:{loops}-loop" + ("" if confirmed == "both" else f":started-confirmed-for-{confirmed}")
         try:
             st = v2x.init_state(src)
             v2x.step(st, v2x.resolve_event(st, ("start_main",)), [], v2x.UIDS.n)
@@ -336,11 +407,12 @@ def instance_event_part(_):
             res["viol"].append((f"instance-events:{name}:identical-start-not-merged", f"{len(started)} Start events", info))
             continue
         uids = [e["action_uid"] for e in started]
-        # the actions are running when E1 arrives
+        # the actions are running when E1 arrives; their Started events have come back for both / none / one of them
         n0 = v2x.UIDS.n
-        for u in uids:
-            v2x.step(st, {"type": "Act1ActionStarted", "action_uid": u}, [], n0)
-            n0 = v2x.UIDS.n
+        for k, u in enumerate(uids):
+            if confirmed == "both" or (confirmed == "first" and k == 0) or (confirmed == "second" and k == 1):
+                v2x.step(st, {"type": "Act1ActionStarted", "action_uid": u}, [], n0)
+                n0 = v2x.UIDS.n
         res["instance_event_cases"] += 1
         evname = "StopAct1Action" if op.startswith("Stop") else "ChangeAct1Action"
         try:
@@ -461,6 +533,11 @@ def run(rep, tier):
         rep.set("instance_event_outcomes", r["instance_event_outcomes"])
         for sig, what, info in r["viol"]:
             rep.violation(sig, what, info)
+    for r in par.pmap(same_name_part, [0]):
+        rep.set("same_name_cases", r["same_name_cases"])
+        rep.set("same_name_outcomes", r["same_name_outcomes"])
+        for sig, what, info in r["viol"]:
+            rep.violation(sig, what, info)
     for r in par.pmap(cascade_part, [0]):
         rep.set("cascade_programs", r["cascade_programs"])
         rep.set("cascade_outcomes", r["cascade_outcomes"])
@@ -482,9 +559,10 @@ def replay(rp):
         return 0
     if rp.get("engine") == "C05-inst":
         print(rp["source"])
-        r = instance_event_part(0)
-        for sig, what, _i in r["viol"]:
-            print(sig, ":", what)
+        for part in (instance_event_part, same_name_part):
+            r = part(0)
+            for sig, what, _i in r["viol"]:
+                print(sig, ":", what)
         print(rp.get("what"))
         return 0
     from vf.props.c07 import replay as r
